@@ -491,9 +491,55 @@ trivial = no record; distinct = distinct sequences of (body kind, size class, pr
             let big = rng.bytes(rng.clone().urange(110_000, 260_000));
             spec.bodies.push((Body::Compressed { payload: big, level: 1 }, rng.chance(1, 2)));
         }
+        if i % 50 == 7 {
+            // records that expand a great deal: a few hundred kilobytes to a few megabytes of
+            // repetitive data (real radar moments over clear air compress 20:1 and better), at
+            // sizes around which an implementation's first guess at the output size stops sufficing
+            let n = *rng.pick(&[325_888usize, 325_889, 400_000, 1 << 20, (1 << 20) + 1, 3_000_000]) + rng.usize_below(3);
+            let payload: Vec<u8> = match rng.below(3) {
+                0 => vec![rng.u8(); n],
+                1 => {
+                    let word = rng.bytes(rng.clone().urange(2, 40));
+                    word.iter().cycle().take(n).cloned().collect()
+                }
+                _ => {
+                    // long constant stretches with a sparse sprinkling of other bytes
+                    let mut v = vec![0u8; n];
+                    for _ in 0..n / 4000 {
+                        let at = rng.usize_below(n);
+                        v[at] = rng.u8();
+                    }
+                    v
+                }
+            };
+            spec.bodies.push((Body::Compressed { payload, level: *rng.pick(&[1u32, 9]) }, rng.chance(1, 2)));
+            obs.count("containers_with_a_record_that_expands_to_more_than_300_kilobytes", 1);
+        }
         check_container(obs, &spec, i);
         if i % 4 == 0 {
             check_chunks(obs, &mut rng, i);
+        }
+    });
+    // Headers alone, many of them, on all worker threads at once: files that hold nothing but the
+    // 24 header bytes, every thread reading other dates than its neighbours at the same moment.
+    let headers: u64 = ctx.tier.pick(60_000, 2_000_000);
+    par_cases(ctx, headers, |i, obs| {
+        let mut rng = Rng::derive(seed, 55, i);
+        let mut w = VolHeader::realistic(&mut rng);
+        w.date = match i % 4 {
+            0 => 1 + (i / 4 % 65_535) as u32,
+            1 => 19_000 + (i % 7) as u32,
+            _ => rng.range(1, 65_535) as u32,
+        };
+        w.time = rng.below(86_400_000) as u32;
+        let bytes = w.encode().to_vec();
+        obs.case(mix(mix(57, w.date as u64), (w.time / 3_600_000) as u64));
+        let want = cal::icd_epoch_ms(w.date as u16, w.time as u64);
+        let replay = json!({"scenario": "header-only file", "index": i, "date": w.date, "time": w.time, "file_hex": crate::ev::hex(&bytes)});
+        match mon::catch(|| File::new(bytes.clone()).header().map(|h| (h.date_time().map(|t| t.timestamp_millis()), h.icao_of_radar(), h.extension_number()))) {
+            Ok(Ok((Some(t), icao, ext))) if t == want && icao == utf8_or_none(&w.icao) && ext == utf8_or_none(&w.ext) => obs.count("header_only_files_exact", 1),
+            Ok(other) => obs.violation("header date_time", format!("date {} time {}: expected epoch ms {}, got {:?}", w.date, w.time, want, other.map_err(|e| format!("{e:?}"))), replay),
+            Err(p) => obs.violation(format!("header date_time {}", p.signature()), p.message, replay),
         }
     });
 }
